@@ -96,6 +96,19 @@ DESC = {
  "C15-4": ("sources read through one shared 64 KiB buffer with a single File::read", "source file longer than 65 536 bytes whose tail carries shape information"),
  "C14-5": ("wide-tuple fallback `Vec<serde_json::Value>` guarded by `len < 12` instead of `<= 12`", "tuple of exactly 12 elements below the root"),
  "C16-6": ("OUT_DIR read with env::var; the error arm falls back to the current directory", "OUT_DIR whose bytes are not valid UTF-8"),
+ # ---- round 4 (fresh sub-agents, scale / rare features again, asked for thresholds a tester would not think of first;
+ #      run against the checks as they stood after the scale stream was built)
+ "C17-6": ("text path: the 'all elements equal' test looks at the first 1000 neighbouring pairs only", "array whose first 1001 elements share a shape and a later one differs"),
+ "C09-6": ("merger below recursion level 100 returns two different shapes as an unflattened OneOf", "documents nested 102 levels whose innermost objects differ: one more OneOf per re-addition"),
+ "C02-7": ("Object vs Object with more than 20 members in the target: sorted two-iterator walk whose final check inspects only the first left-over member", "22-member target, the last-but-one member optional and the last required, source lacking both"),
+ "C01-5": ("from_sources parse cache keyed by the source with ALL white space removed (also inside strings)", "two sources that differ only by white space inside a member name"),
+ "C04-9": ("number regex rewritten with `\\d` (every Unicode decimal digit in logos)", "non-ASCII decimal digit inside a number after its first ASCII digit"),
+ "C05-8": ("has_errors clips span and fragment to 200 bytes (byte offset)", "broken node longer than 200 bytes with a multi-byte character across byte 200: panic"),
+ "C04-10": ("parse_source strips a leading U+FEFF", "text starting with a byte order mark: accepted, and every error range shifted"),
+ "C15-5": ("'a file listed twice is read once' keyed by Path::file_name()", "two sources in different directories with the same file name"),
+ "C16-7": ("shape_name of an Object feeds only the first 50 member types into the checksum", "two 51-member objects differing in the last member's type: one name, defined twice"),
+ "C13-5": ("create_subtype returns silently beyond MAX_SUBTYPE_DEPTH = 100", "composite nesting of 102 levels or more"),
+ "C14-6": ("directly nested arrays rendered by a loop that applies the Option flags in reverse order", "array of arrays whose sequence of optional flags is not a palindrome"),
 }
 
 def main():
